@@ -99,10 +99,11 @@ def hFresh : Handler := fun impl => do
     else if Spec.C09Get.holds suffix inm ims h (kind == "n304") then []
     else ["bad:C09:304-without-matching-validator"]
   let oracle := if obs.isNone && kind != "panic" then "na" else joinBad (bad08 ++ bad09)
+  -- no C09 class any more: finding C09-a (cutset trim in normalizeEtag) is repaired, kf.C09-a runs as a
+  -- regression stream, a 304 without a matching validator is an ordinary violation
   let cls := joinCls (
     (if Spec.C08.inClass_C08_a st now then ["C08-a"] else []) ++
-    (if Spec.C08.inClass_C08_b st now then ["C08-b"] else []) ++
-    (if inm != [] && Spec.C09Get.inClass_C09_a inm (h.get b!"etag") then ["C09-a"] else []))
+    (if Spec.C08.inClass_C08_b st now then ["C08-b"] else []))
   let src :=
     if st.sMaxAge.isSome then "smaxage" else if st.maxAge.isSome then "maxage"
     else match st.expires with
